@@ -1,5 +1,6 @@
 import OtelVerif.Common.Line
 import OtelVerif.Model.C02
+import OtelVerif.Model.C02P
 import OtelVerif.Model.C02Check
 /-! driver for C02: models `c02-cond` (cond.go alone, scheduler-controlled lock) and `c02-queue`
 (memory queue, run-to-quiescence after every environment label) -/
@@ -106,7 +107,10 @@ structure QD where
   prods : List Nat := []
   cons : List (Nat × String) := []
   bad : Bool := false
+  persistent : Bool := false
   mon : Check.Mon := {}
+
+def QD.fireF (d : QD) (l : Label) : Option St := if d.persistent then pfire d.k d.s l else fire d.k d.s l
 
 def resStr : Res → String
   | .ok => "nil"
@@ -138,10 +142,10 @@ def QD.nextInternal (d : QD) : Option Label :=
   let cands : List Label :=
     d.prods.flatMap (fun p => [.wakeTok p, .wakeCtx p, .relockTok p, .relockCtx p, .getRes p, .resCtx p]) ++
     (match d.s.cwait with | c :: _ => [Label.recheck c] | [] => [])
-  cands.find? (fun l => (fire d.k d.s l).isSome)
+  cands.find? (fun l => (d.fireF l).isSome)
 
 def QD.applyLabel (d : QD) (l : Label) : Option QD :=
-  match fire d.k d.s l with
+  match d.fireF l with
   | none => none
   | some s' =>
     let cons := match l with
@@ -168,11 +172,11 @@ def QD.ext (d : QD) (l : Label) : QD × List String :=
 
 def parseBool (s : Option String) : Bool := s = some "1"
 
-def queueHandler : Handler QD where
-  init := {}
+def mkQueueHandler (persistent : Bool) : Handler QD where
+  init := { persistent := persistent }
   onCase := fun d toks =>
     let k : Cfg := { cap := (kvInt toks "cap").getD 1, block := parseBool (kv toks "block"), wfr := parseBool (kv toks "wfr") }
-    { d with k := k, mon := { cap := k.cap, block := k.block, wfr := k.wfr } }
+    { d with k := k, mon := { cap := k.cap, block := k.block, wfr := k.wfr, persistent := persistent } }
   onOp := fun d toks =>
     let (d', outs) : QD × List String :=
       match toks with
@@ -201,4 +205,5 @@ def queueHandler : Handler QD where
 end OtelVerif.Drivers.C02
 
 def main : IO UInt32 :=
-  runMulti [("c02-cond", run OtelVerif.Drivers.C02.condHandler), ("c02-queue", run OtelVerif.Drivers.C02.queueHandler)]
+  runMulti [("c02-cond", run OtelVerif.Drivers.C02.condHandler), ("c02-queue", run (OtelVerif.Drivers.C02.mkQueueHandler false)),
+            ("c02-persistent", run (OtelVerif.Drivers.C02.mkQueueHandler true))]
